@@ -1043,7 +1043,19 @@ class ApertureStats:
         The centroid is computed as the center of mass of the unmasked
         pixels within the aperture.
         """
-        origin = np.transpose((self.bbox_xmin, self.bbox_ymin))
+        # the cutouts start at the first pixel of the aperture bounding
+        # box that lies within the image (which differs from the
+        # bounding-box minimum if the box extends beyond the left or
+        # bottom image edge)
+        origin = []
+        for slc_large, _ in self._overlap_slices:
+            if slc_large is None:  # no overlap with the image
+                origin.append((np.nan, np.nan))
+            else:
+                origin.append((slc_large[1].start, slc_large[0].start))
+        origin = np.array(origin, dtype=float)
+        if self.isscalar:
+            origin = origin[0]
         return self.cutout_centroid + origin
 
     @lazyproperty
